@@ -304,15 +304,19 @@ DWORD WINAPI reb_server_start(void* args){
         }
            
         /* read (and ignore) the HTTP headers */
-        fgets(buf, BUFSIZE, stream);
+        char* header = fgets(buf, BUFSIZE, stream);
         unsigned long content_length = 0;
-        while(strcmp(buf, "\r\n")) {
+        while(header && strcmp(buf, "\r\n")) {
             char cl[BUFSIZE];
             int ni = sscanf(buf, "Content-Length: %s\n", cl);
-            if (ni){
+            if (ni>0){
                 content_length = strtol(cl,NULL,10);
             }
-            fgets(buf, BUFSIZE, stream);
+            header = fgets(buf, BUFSIZE, stream);
+        }
+        if (!header){ // The client went away before the end of the headers. Do not wait for them forever.
+            fclose(stream);
+            continue;
         }
 
         if (!strcasecmp(uri, "/simulation")) {
